@@ -26,6 +26,24 @@ type WriteOpts struct {
 	// arena, when non-nil, is one buffer out of which the lob arguments are cut as adjacent
 	// sub-slices with spare capacity (the way a caller chunks a larger buffer).
 	arena []byte
+
+	// reuse: field names and symbol values are passed in one SymbolToken per role whose Text points
+	// at a string variable that is assigned before each call (the shape of a loop that re-uses its
+	// token); a writer has to look at the text, not at the pointer.
+	reuse            bool
+	fieldVar, symVar string
+}
+
+func (o *WriteOpts) tokFor(role int, s model.Sym) ion.SymbolToken {
+	if !o.reuse || !s.HasText {
+		return Tok(s)
+	}
+	if role == 0 {
+		o.fieldVar = s.Text
+		return ion.SymbolToken{Text: &o.fieldVar, LocalSID: ion.SymbolIDUnknown}
+	}
+	o.symVar = s.Text
+	return ion.SymbolToken{Text: &o.symVar, LocalSID: ion.SymbolIDUnknown}
 }
 
 func (o *WriteOpts) lob(b []byte) []byte {
@@ -83,6 +101,7 @@ func Write(w ion.Writer, vals []*model.Value, o *WriteOpts) error {
 		o = &WriteOpts{}
 	}
 	o.arena = nil
+	o.reuse = o.Rnd != nil && o.Rnd.Intn(3) == 0
 	if o.Rnd != nil {
 		total := 0
 		model.Walk(vals, func(v *model.Value, _ int) {
@@ -123,7 +142,7 @@ func writeValue(w ion.Writer, v *model.Value, o *WriteOpts, inStruct bool) error
 			return &WriteError{"harness", fmt.Errorf("struct child without field name in model")}
 		}
 		logCall(o, "FieldName("+v.Field.String()+")")
-		return wrap("FieldName", w.FieldName(Tok(*v.Field)))
+		return wrap("FieldName", w.FieldName(o.tokFor(0, *v.Field)))
 	}
 	if inStruct && !nameLast {
 		if err := setName(); err != nil {
@@ -192,7 +211,7 @@ func writeValue(w ion.Writer, v *model.Value, o *WriteOpts, inStruct bool) error
 			return wrap("WriteSymbolFromString", w.WriteSymbolFromString(v.Sy.Text))
 		}
 		logCall(o, "WriteSymbol("+v.Sy.String()+")")
-		return wrap("WriteSymbol", w.WriteSymbol(Tok(v.Sy)))
+		return wrap("WriteSymbol", w.WriteSymbol(o.tokFor(1, v.Sy)))
 	case model.String:
 		logCall(o, fmt.Sprintf("WriteString(len %d)", len(v.S)))
 		return wrap("WriteString", w.WriteString(v.S))
